@@ -1460,6 +1460,7 @@ func propC21(c *Check) {
 	ruleR21_3(c)
 	ruleR21_4(c)
 	ruleR18_6(c) // the seeks of the inputs (table and concat iterators) land on the right side
+	ruleR12_3(c) // "earliest input wins" gives newer data precedence only if the inputs are handed over newest first
 }
 
 func constInt64(c *types.Const) (int64, bool) {
